@@ -42,6 +42,11 @@ class ProgGen:
             return "%s %s (%s %s %s)" % (self.ext(), self.rng.choice(["+", "<"]), self.ext(),
                                          self.rng.choice(["and", "or"]), self.ext())
         if "boolop" in self.f and r < 0.95:
+            if self.rng.random() < 0.4:
+                # and/or in both operands of a binary operation or comparison: hoisted in order
+                return "(%s %s %s) %s (%s %s %s)" % (
+                    self.ext(), self.rng.choice(["and", "or"]), self.ext(), self.rng.choice(["+", "<", "=="]),
+                    self.ext(), self.rng.choice(["and", "or"]), self.ext())
             return "%s %s %s" % (self.ext(), self.rng.choice(["and", "or"]), self.ext())
         return "%s < %s" % (self.ext(), self.rng.choice(self.vars))
 
